@@ -244,6 +244,14 @@ let parse_op (st : st) name (a : string array) : op =
   | "set_seq" -> OSetSeq (n_of_dec a.(0))
   | "insert" -> OInsert (unhx a.(0), parse_tval a.(1))
   | "insert_raw" -> OInsertRaw (unhx a.(0), unhx a.(1))
+  | "insert_enr" -> (
+      (* a saved record inserted as a value: its own encoding is the raw item; without a slot, the list of the current record *)
+      match Hashtbl.find_opt st.saved (try int_of_string a.(1) with _ -> -1) with
+      | Some v -> OInsertRaw (unhx a.(0), encode v)
+      | None -> (
+          match st.cur with
+          | Some r -> OInsertRaw (unhx a.(0), enc_list (encode r))
+          | None -> failwith "insert_enr without record"))
   | "set_ip" -> OSetIp (unhx a.(0))
   | "set_udp4" -> OSetUdp4 (n_of_dec a.(0))
   | "set_udp6" -> OSetUdp6 (n_of_dec a.(0))
